@@ -138,3 +138,6 @@ Proof.
   intros Hcw Hw Hc. destruct (xwidth_ok_xbits _ _ Hcw) as [bits [Hb Hl]]. exists bits. split; [exact Hb|]. split; [exact Hl|].
   intros E. subst bits. unfold zlen in Hl. cbn in Hl. destruct Hc as [Hc|[Hn Hc]]; nia.
 Qed.
+
+Lemma Forall2_impl' {A B} (R R' : A -> B -> Prop) l l' : (forall a b, R a b -> R' a b) -> Forall2 R l l' -> Forall2 R' l l'.
+Proof. intros H. induction 1; constructor; auto. Qed.
